@@ -75,6 +75,8 @@ def run(ctx):
             ctx.violation(key, "%s [%s]" % (text, c.header()), rep)
     if len(runs) < len(cases):
         ctx.tie_broken("harness output", "%d of %d runs reported" % (len(runs), len(cases)))
+    # T2: the static sc_notify_merge of the working tree against the extracted int-level model
+    nc.merge_tie(ctx, [0, 0, 0, 1, 2], 1500 if ctx.quick else 20000)
     ctx.cov["rule"] = ("sc_notify_payload without payload (and sc_notify, sc_notify_allgather, sc_notify_ext, sc_notify_nary) on the simulated MPI: all 9 algorithm types, "
                        "receiver patterns random/sparse/dense/ring/star/all/empty/self/high-ranks, n-ary widths 2..6, ranges budgets 1..25, superset extra sets, sorted 0/1, in-place and "
                        "separate senders array, 8 scheduler adversaries (deadlock, endless polling and leftover messages are detected by the simulator), 2-4 calls back to back with and "
